@@ -8,7 +8,10 @@ PROPS_FILE = "C15.v"
 RUN_MODULE = "RunC15"
 TRANSLATOR_UNITS = ["data"]
 SHARD = 400
-RULE = ("layout trees of depth <= 3 (struct/union/array/flexible over u0..u5, s1..s5, small shaped Enum/IntEnum leaves, "
+RULE = ("layout trees of depth <= 3 (struct/union/array/flexible over u0..u5, s1..s5, small shaped Enum/IntEnum leaves "
+        "incl. SIGNED-shaped ones with negative members (exhaustive block over 8 fixed layouts: every bit pattern of the "
+        "constant and of the view target, dynamic index, Signal(layout); 30% of the random layouts; designs written from "
+        "Signals of the signed enumeration, whose RTLIL wires carry enum_value_* attributes; histogram tag +senum), "
         "range(a, b) fields and plain Python Enum/IntEnum/Flag fields (width and signedness computed in Coq by the C10 models "
         "cast_range / cast_enum over all members incl. aliases), shaped Flag/IntFlag fields with boundary STRICT or KEEP "
         "(model: enumeration leaf of Data.flag_values)) "
@@ -42,7 +45,7 @@ ASSUMPTIONS = ["CPython 3.12 enum.Flag semantics as rendered by Data.py_flag_new
 
 ERR = {"KeyError": 1, "IndexError": 2, "ValueError": 3, "TypeError": 4, "AttributeError": 5}
 BOUNDS = ["STRICT", "CONFORM", "EJECT", "KEEP"]
-FINDING_SIGNED_ENUM = "C15-signed-enum-field"
+FINDING_SIGNED_ENUM = "C15-signed-enum-field"             # repaired in /repo; probe guards against regression
 FINDING_FLAG_INVERT = "C15-flag-invert-wide"
 FINDING_UNION_CONST = "C15-union-const-passthrough"      # fixed by 65f681c; probe guards against regression
 
@@ -368,16 +371,18 @@ def gen_xinit(rng, l, top=True):
     return kvs, paths
 
 
-def _has_signed_view_enum(l):
+def _has_signed_enum(l):
+    """the layout has a field shaped as a SIGNED shaped enumeration (Enum with a view class or IntEnum): the class of
+    inputs of the repaired finding C15-signed-enum-field (histogram tag `+senum`)"""
     t = l[0]
     if t == "enum":
-        return bool(l[2] and l[3])
+        return bool(l[2])
     if t in ("struct", "union"):
-        return any(_has_signed_view_enum(f) for _, f in l[1])
+        return any(_has_signed_enum(f) for _, f in l[1])
     if t == "array":
-        return _has_signed_view_enum(l[1])
+        return _has_signed_enum(l[1])
     if t == "flex":
-        return any(_has_signed_view_enum(f) for _, _, f in l[2])
+        return any(_has_signed_enum(f) for _, _, f in l[2])
     return False
 
 
@@ -407,7 +412,7 @@ def span(l, p):
 def gen_synth(rng):
     """a design whose statements assign through view fields: layout, init, comb / clocked statements, stimulus."""
     for _ in range(50):
-        l = gen_layout(rng, rng.randrange(1, 4), signed_enum=False, wide=rng.random() < 0.4)
+        l = gen_layout(rng, rng.randrange(1, 4), signed_enum=rng.random() < 0.35, wide=rng.random() < 0.4)
         if l[0] in LEAFK:
             l = ["struct", [[0, l], [1, list(rng.choice(LEAVES))]]]
         n = lsize(l)
@@ -446,12 +451,17 @@ def gen_synth(rng):
             iw = max(1, rng.choice([w - 1, w, w, w + 2]))
             ins.append(["u", iw, rng.random() < 0.5])
         elif t[0] == "enum":
-            ins.append(["u", t[1], False])
+            # a plain signal, or a Signal of the enumeration itself (EnumView.eq(EnumView) / IntEnum signal): its RTLIL
+            # wire carries the enum_value_* attributes, negative members as two's complement patterns
+            # (Signal(E) starts at E.const(None) = E(0): only classes with a member of value 0)
+            ins.append(["v", t] if 0 in t[4] and rng.random() < 0.6 else ["u", t[1], False])
         else:
             ins.append(["v", t])                                # a view of the same sub-layout: View.eq(View)
         stmts.append({"dom": dom, "p": (p[:-1] if dyn is not None else p), "in": len(ins) - 1, "ix": dyn})
 
     def rv(i):
+        if i[0] == "v" and i[1][0] == "enum" and i[1][2]:         # signal of a signed enumeration: any value of its shape
+            return rng.randrange(-(1 << (i[1][1] - 1)), 1 << (i[1][1] - 1))
         if i[0] == "v":
             return rng.randrange(0, 1 << lsize(i[1]))
         lo, hi = (-(1 << (i[1] - 1)), 1 << (i[1] - 1)) if i[2] else (0, 1 << i[1])
@@ -517,8 +527,47 @@ def gen_synth_mixed_dyn(rng):
             "cls": bool(l[0] == "struct" and rng.random() < 0.4)}
 
 
+def gen_synth_senum(rng):
+    """designs whose targets are fields shaped as SIGNED enumerations with negative members (the class of the repaired
+    findings C15-signed-enum-field / RTLIL enum attributes of negative members): written from Signals of the enumeration
+    itself (EnumView.eq(EnumView); enum_value_* attributes on the input wires) and from plain signed signals, by constant
+    and dynamic index, comb and clocked."""
+    w = rng.randrange(2, 4)
+    lo, hi = -(1 << (w - 1)), 1 << (w - 1)
+    ms = [0] + rng.sample([v for v in range(lo, hi) if v != 0], rng.randrange(1, min(3, hi - lo - 1) + 1))
+    if min(ms) >= 0:
+        ms.append(rng.randrange(lo, 0))
+    e = ["enum", w, True, rng.random() < 0.7, ms]
+    side = ["leaf", rng.randrange(1, 4), rng.random() < 0.5]
+    n = rng.randrange(2, 4)
+    kind = rng.choice(["struct", "array", "nested", "union"])
+    if kind == "struct":
+        l, pe, parr = ["struct", [[0, side], [1, e], [2, ["array", e, n]]]], [1], [2]
+    elif kind == "array":
+        l, pe, parr = ["struct", [[0, ["array", e, n]], [1, e]]], [1], [0]
+    elif kind == "nested":
+        l, pe, parr = ["struct", [[0, ["struct", [[0, e], [1, side]]]], [1, ["array", e, n]]]], [0, 0], [1]
+    else:
+        l, pe, parr = ["struct", [[0, ["union", [[0, e], [1, side]]]], [1, ["array", e, n]]]], [0, 0], [1]
+    nb = max(1, (n - 1).bit_length())
+    dom_e, dom_a = rng.choice([("comb", "comb"), ("sync", "sync"), ("comb", "sync"), ("sync", "comb")])
+    ins = [["v", e] if rng.random() < 0.7 else ["u", w, True], ["u", nb, False], ["v", e] if rng.random() < 0.7 else ["u", w, True]]
+    st = [{"dom": dom_e, "p": pe, "in": 0, "ix": None}]
+    if rng.random() < 0.6:
+        st.append({"dom": dom_a, "p": parr, "in": 2, "ix": 1})
+    else:
+        st.append({"dom": dom_a, "p": parr + [rng.randrange(0, n)], "in": 2, "ix": None})
+    stim = []
+    for _ in range(3):
+        stim.append(["d", [[0, rng.randrange(lo, hi)], [1, rng.randrange(0, 1 << nb)], [2, rng.randrange(lo, hi)]]])
+        if "sync" in (dom_e, dom_a):
+            stim += [["c", 1], ["c", 0]]
+    return {"k": "synth", "l": l, "tv": rng.randrange(0, 1 << lsize(l)), "ins": ins, "st": st, "stim": stim,
+            "cls": bool(rng.random() < 0.4)}
+
+
 def build_synth(c):
-    from amaranth.hdl import Module, Signal, ClockDomain, Shape
+    from amaranth.hdl import Module, Signal, ClockDomain, Shape, Value
     from amaranth.lib import data
     lj = c["l"]
     L = build(lj)
@@ -530,7 +579,7 @@ def build_synth(c):
         if i[0] == "v":
             x = Signal(build(i[1]), name=f"i{j}")
             ins.append(x)
-            raw.append(x.as_value())
+            raw.append(Value.cast(x))
         else:
             x = Signal(Shape(i[1], i[2]), name=f"i{j}")
             ins.append(x)
@@ -825,11 +874,44 @@ def gen_cases(tier, seed):
             ps = leaf_paths(l)
             for tv in range(0, 1 << n):
                 cases.append({"k": "view", "l": l, "tv": tv, "ps": ps})
+    # --- signed shaped enumerations as fields (Enum with a view class / IntEnum; negative members): every bit pattern
+    #     of the constant and of the view's target, every member as initialiser, dynamic array index, Signal(layout)
+    se, si = ["enum", 2, True, True, [-1, 1, 0]], ["enum", 2, True, False, [-2, 1]]
+    senum_layouts = [
+        ["struct", [[0, ["leaf", 1, False]], [1, se], [2, ["leaf", 2, True]]]],
+        ["struct", [[0, si], [1, se]]],
+        ["union", [[0, se], [1, ["leaf", 3, False]]]],
+        ["array", se, 3],
+        ["array", si, 2],
+        ["struct", [[0, ["array", ["struct", [[0, se], [1, ["leaf", 1, False]]]], 2]]]],
+        ["flex", 5, [[0, 1, se], [1, 2, ["enum", 3, True, True, [-4, -1, 3]]]]],
+        ["struct", [[0, ["enum", 1, True, True, [-1, 0]]], [1, ["enum", 3, True, False, [-3, 2]]]]],
+    ]
+    for l in senum_layouts:
+        n = lsize(l)
+        ps = leaf_paths(l)
+        cases.append({"k": "layout", "l": l})
+        for raw in range(-1, (1 << n) + 1):
+            cases.append({"k": "bits", "l": l, "raw": raw})
+        for tv in range(0, 1 << n):
+            cases.append({"k": "view", "l": l, "tv": tv, "ps": ps, "cls": bool(l[0] == "struct" and tv % 2)})
+        for _ in range(6):
+            init, paths = gen_init(rng, l)
+            cases.append({"k": "const", "l": l, "i": init, "ps": [p for p in paths if p][:8]})
+            xi, xps = gen_xinit(rng, l)
+            xps = [p for p in xps if p]
+            cases.append({"k": "xconst", "l": l, "i": xi, "ps": xps[:6]})
+            cases.append({"k": "siginit", "l": l, "i": xi, "ps": xps[:4]})
+        for p in ([[]] if l[0] == "array" else []) + [p for p in ps if target(l, p)[0] == "array"]:
+            a = target(l, p)
+            for idx in range(0, a[2] + 1):
+                for tv in rng.sample(range(0, 1 << n), min(1 << n, 8)):
+                    cases.append({"k": "viewdyn", "l": l, "tv": tv, "p": p, "idx": idx})
     # --- structured random
     N = 700 if not thorough else 2600
     for it in range(N):
         depth = rng.randrange(1, 4)
-        l = gen_layout(rng, depth, signed_enum=rng.random() < 0.08, wide=rng.random() < 0.25)
+        l = gen_layout(rng, depth, signed_enum=rng.random() < 0.3, wide=rng.random() < 0.25)
         if l[0] in LEAFK:
             l = ["struct", [[0, l]]]
         n = lsize(l)
@@ -881,7 +963,7 @@ def gen_cases(tier, seed):
         # .const() read-back and Signal(layout, init=...) read-back in the simulator
         lx = l if it % 3 else overlapping_flex(rng)
         if it % 3 == 1:
-            lx = gen_layout(rng, depth, signed_enum=rng.random() < 0.15, wide=rng.random() < 0.5)
+            lx = gen_layout(rng, depth, signed_enum=rng.random() < 0.3, wide=rng.random() < 0.5)
             if lx[0] in LEAFK:
                 lx = ["struct", [[0, lx], [1, list(rng.choice(LEAVES))]]]
         for _ in range(3):
@@ -896,6 +978,8 @@ def gen_cases(tier, seed):
         cases.append(gen_synth(rng))
     for it in range(60 if not thorough else 400):
         cases.append(gen_synth_mixed_dyn(rng))
+    for it in range(40 if not thorough else 250):
+        cases.append(gen_synth_senum(rng))
     # --- FlexibleLayout constructor: fields ending at / past the declared size
     for it in range(60 if not thorough else 600):
         fl = overlapping_flex(rng)
@@ -1304,7 +1388,7 @@ def coq_term(c):
 def classify(c):
     k = c["k"]
     if "l" in c:
-        return f"{k}/{c['l'][0]}"
+        return f"{k}/{c['l'][0]}" + ("+senum" if _has_signed_enum(c["l"]) else "")
     if k.startswith("flag"):
         return f"{k}/{c['b']}"
     return k
@@ -1388,16 +1472,15 @@ def _probe_union_const():
 def extra(tier, seed, findings):
     viol, cov = [], {}
     listed = {f.get("id") for f in findings if f.get("property") == ID and f.get("status") == "open"}
+    # repaired defect (fix: lib.data hands __call__ / from_bits the field read in the field's shape): must hold on the
+    # current tree; a regression is a VIOLATION
     p1 = _probe_signed_enum()
     cov["probe_signed_enum_field"] = p1
     if p1 != [1, -1, 1]:
         what = (f"{FINDING_SIGNED_ENUM}: layout field whose shape is a signed-shaped Enum: const({{a: E.A(-1)}})['a'] and "
                 f"View[...]['a'] fail (observed {p1}; spec [1, -1, 1])")
-        if FINDING_SIGNED_ENUM in listed:
-            viol.append({"known": what})
-        else:
-            viol.append({"property": ID, "kind": "input", "case": {"k": "probe", "which": "signed_enum"},
-                         "expected_by_model": [1, -1, 1], "observed": p1, "explain": what})
+        viol.append({"property": ID, "kind": "input", "case": {"k": "probe", "which": "signed_enum"},
+                     "expected_by_model": [1, -1, 1], "observed": p1, "explain": what})
     p2 = _probe_flag_invert()
     cov["probe_flag_invert_wide"] = p2
     if p2[:2] != p2[2:]:
